@@ -1,7 +1,7 @@
 CONSTANTS
   MaxSlices = 3
-  MaxLen = 2
-  MaxIntr = 1
+  MaxLen = 3
+  MaxIntr = 2
   Bug = "none"
 SPECIFICATION RSpec
 INVARIANT Emit
